@@ -972,10 +972,17 @@ impl SetU64 {
             }
             InternalMut::Heap { s, a } => {
                 if compute_array_bits(e) < s.bits {
-                    let mut new = Self::with_capacity_and_bits(
-                        s.cap + 1 + 2 * (crate::rand::rand_usize(s.cap, s.bits) % s.cap),
-                        compute_array_bits(e),
-                    );
+                    // Size the new table for the buckets it will need with the
+                    // narrower bitmaps (as `from_iter` does), not from the old
+                    // capacity, which would otherwise multiply on every such insert.
+                    let newbits = compute_array_bits(e);
+                    let r = crate::rand::rand_usize(s.cap, s.bits);
+                    let mut keys: Vec<u64> = self.iter().map(|x| x / newbits.max(1)).collect();
+                    keys.sort();
+                    keys.dedup();
+                    let needed = keys.len() + 1;
+                    let mut new =
+                        Self::with_capacity_and_bits(needed + 1 + 2 * (r % needed), newbits);
                     // new.debug_me("\n\nnew set");
                     for d in self.iter() {
                         new.insert(d);
